@@ -82,3 +82,22 @@ Proof.
   intro s. assert (E : dec_validNumber_prog = vn_prog) by reflexivity. rewrite E, vn_prog_is_valid_number, valid_number_spec. reflexivity.
 Qed.
 Print Assumptions C05_number_recogniser_is_rfc.
+
+(* ---- the string scanner of the skip functions, translated on every run (Base/CurProg.v, Gen/CurProgs.v) ---- *)
+From GJ Require Import Base.CurProg Gen.CurProgs Proofs.CurProgP.
+(* internal/decoder/context.go skipString, statement by statement, is the program the proof below is about; the
+   isHexDigit it calls is the test the interpreter uses *)
+Theorem C05_skip_string_source : dec_skipString_prog = skip_string_prog /\ dec_isHexDigit_as_modelled = true.
+Proof. split; reflexivity. Qed.
+(* entered on an opening quote, that function returns -- for EVERY continuation of the buffer -- where the string
+   recogniser of the model (the one Compact, Indent and the skip walk share, related to RFC 8259 in Proofs/CompactP.v)
+   ends, an error where it refuses, and reads past the buffer only where the model does (never, in front of a sentinel) *)
+Theorem C05_skip_string_translated_is_the_model : forall l,
+  run_cursor dec_skipString_prog (34 :: l) = conv (c_string_body false l).
+Proof. rewrite (proj1 C05_skip_string_source). exact skip_string_is_the_model. Qed.
+Print Assumptions C05_skip_string_translated_is_the_model.
+Example C05_skip_string_ex :
+  run_cursor dec_skipString_prog [34; 97; 92; 117; 48; 48; 101; 57; 92; 110; 34; 44; 0] = CRAt [44; 0] /\
+  run_cursor dec_skipString_prog [34; 97; 92; 117; 48; 48; 101; 103; 34; 0] = CRErr /\
+  run_cursor dec_skipString_prog [34; 97; 10; 34; 0] = CRErr /\ run_cursor dec_skipString_prog [34; 97; 0] = CRErr.
+Proof. vm_compute. repeat split; reflexivity. Qed.
